@@ -23,6 +23,8 @@ THEOREMS = [
     "reopen_idempotent", "reopen_cycles", "ids_fresh_after_reopen_partial", "ids_fresh_full",
     "no_stale_dv_hides_new_rows", "dv_file_reuse_regression",
     "history_reaches_invariant", "reopen_refines", "reopen_accepts_ops",
+    "guard_exact", "guard_sufficient", "reopen_realigns", "table_ids_stable_across_reopen",
+    "view_free_histories_guarded", "view_free_history_reopens",
 ]
 WEIGHTS = {"insert": 28, "delete": 14, "compact": 9, "vacuum": 4, "reopen": 17, "create": 10, "drop": 8,
            "view": 5, "index": 5}
